@@ -139,7 +139,7 @@ def ident_refs(spec, k, form=None):
     if n.kind == IVALUE:
         return [('const', 700 + 10 * k)]
     if n.kind == BIND:
-        return ident_refs(spec, n.target)[:1]
+        return ident_refs(spec, n.target)
     if n.kind == FIELD:
         return [ident_refs(spec, n.parent)[n.fieldno]]
     if n.kind == WSTRUCT:
@@ -215,12 +215,12 @@ def render_package(spec, pkgname, modpath, other_pkg=None):
             ncomp = len(ident_refs(spec, k))
             helpers.append('func idsP%s(x *%s) []int { if x == nil { return make([]int, %d) }; return ids%s(*x) }' % (t, t, ncomp, t))
         elif n.kind in (BIND, IVALUE):
-            w('type %s interface{ VID() int }\n' % nm.iname(k))
+            w('type %s interface{ VIDs() []int }\n' % nm.iname(k))
             if n.kind == IVALUE:
                 t = nm.tname(k)
                 w('type %s struct{ ID int }\n' % t)
-                w('func (x %s) VID() int { return x.ID }\n' % t)
-    w('func idsIface(x interface{ VID() int }) []int { if x == nil { return []int{0} }; return []int{x.VID()} }\n')
+                w('func (x %s) VIDs() []int { return []int{x.ID} }\n' % t)
+    w('func idsIface(x interface{ VIDs() []int }) []int { if x == nil { return []int{0} }; return x.VIDs() }\n')
     # VID methods for bind targets
     for k, n in enumerate(nodes):
         if n.kind == BIND:
@@ -229,11 +229,11 @@ def render_package(spec, pkgname, modpath, other_pkg=None):
             if tn.kind == FIELD:
                 recv = nm.comp_tname(tn.parent, tn.fieldno)
             elif tn.kind == WSTRUCT:
-                w('func (x *%s) VID() int { return ids%s(*x)[0] }\n' % (nm.tname(tk), nm.tname(tk)))
+                w('func (x *%s) VIDs() []int { return ids%s(*x) }\n' % (nm.tname(tk), nm.tname(tk)))
                 continue
             else:
                 recv = '*' + nm.tname(tk) if tn.ptr else nm.tname(tk)
-            w('func (x %s) VID() int { return x.ID }\n' % recv)
+            w('func (x %s) VIDs() []int { return []int{x.ID} }\n' % recv)
     w('\n'.join(helpers) + '\n')
     # ---- provider functions
     for k, n in enumerate(nodes):
